@@ -1,9 +1,314 @@
-//! group `codes` — stub (not built yet).
-#![allow(unused)]
+//! group `codes` — C17: src/rr/rr_type.rs, src/class.rs, src/message/{question,opcode,rcode}.rs
+//! through the public `FromStr` / `Display` / `TryFrom` implementations.
+//!
+//! ops (text arguments are the hex of the UTF-8 octets, `-` = empty):
+//!   crt <kind> <v>       parse(display(v))              -> `ok <v'>` | `err:<kind>`
+//!   cpres <kind> <v> <texthex>   display(v) == text (the text is what the implementation printed when
+//!                        the case was generated: a recorded input)  -> `ok` | `differs:<texthex>`
+//!   cparse <kind> <hex>  parse(text)                    -> `ok <v>` | `err:Unknown` | `err:BadValue`
+//!   copc <x>             Opcode::try_from(x: u8)        -> `ok <x'>` | `err`
+//!   crc <x>              Rcode::try_from(x: u8)         -> `ok <x'>` | `err`
+//!   cext <e>             Rcode::try_from(ExtendedRcode) -> `ok <x'>` | `err`
+//! kind: t = Type, c = Class, qt = Qtype, qc = Qclass.
 use crate::common::*;
+use quandary::class::Class;
+use quandary::message::{ExtendedRcode, Opcode, Qclass, Qtype, Rcode};
+use quandary::rr::Type;
 
-pub fn run(_op: &str, _a: &[&str]) -> Option<String> {
-    None
+fn perr(e: &str) -> String {
+    // the two error strings of the FromStr impls
+    if e.starts_with("unknown") {
+        "err:Unknown".into()
+    } else {
+        "err:BadValue".into()
+    }
 }
 
-pub fn gen(_rng: &mut Rng, _thorough: bool, _em: &mut Emitter) {}
+fn display(kind: &str, v: u16) -> Option<String> {
+    Some(match kind {
+        "t" => Type::from(v).to_string(),
+        "c" => Class::from(v).to_string(),
+        "qt" => Qtype::from(v).to_string(),
+        "qc" => Qclass::from(v).to_string(),
+        _ => return None,
+    })
+}
+
+fn parse(kind: &str, text: &str) -> Option<String> {
+    Some(match kind {
+        "t" => match text.parse::<Type>() {
+            Ok(x) => format!("ok {}", u16::from(x)),
+            Err(e) => perr(e),
+        },
+        "c" => match text.parse::<Class>() {
+            Ok(x) => format!("ok {}", u16::from(x)),
+            Err(e) => perr(e),
+        },
+        "qt" => match text.parse::<Qtype>() {
+            Ok(x) => format!("ok {}", u16::from(x)),
+            Err(e) => perr(e),
+        },
+        "qc" => match text.parse::<Qclass>() {
+            Ok(x) => format!("ok {}", u16::from(x)),
+            Err(e) => perr(e),
+        },
+        _ => return None,
+    })
+}
+
+pub fn run(op: &str, a: &[&str]) -> Option<String> {
+    let bad = || Some("bad-op".to_string());
+    Some(match (op, a) {
+        ("crt", [k, v]) => {
+            let Ok(v) = v.parse::<u16>() else { return bad() };
+            let k = k.to_string();
+            guarded(move || match display(&k, v) {
+                Some(t) => parse(&k, &t).unwrap(),
+                None => "bad-op".into(),
+            })
+        }
+        ("cpres", [k, v, h]) => {
+            let Ok(v) = v.parse::<u16>() else { return bad() };
+            let Some(bytes) = unhex(h) else { return bad() };
+            let k = k.to_string();
+            guarded(move || match display(&k, v) {
+                Some(t) if t.as_bytes() == &bytes[..] => "ok".into(),
+                Some(t) => format!("differs:{}", hex(t.as_bytes())),
+                None => "bad-op".into(),
+            })
+        }
+        ("cparse", [k, h]) => {
+            let Some(bytes) = unhex(h) else { return bad() };
+            let Ok(text) = String::from_utf8(bytes) else { return bad() };
+            let k = k.to_string();
+            guarded(move || parse(&k, &text).unwrap_or_else(|| "bad-op".into()))
+        }
+        ("copc", [x]) => {
+            let Ok(x) = x.parse::<u8>() else { return bad() };
+            guarded(move || match Opcode::try_from(x) {
+                Ok(o) => format!("ok {}", u8::from(o)),
+                Err(_) => "err".into(),
+            })
+        }
+        ("crc", [x]) => {
+            let Ok(x) = x.parse::<u8>() else { return bad() };
+            guarded(move || match Rcode::try_from(x) {
+                Ok(o) => format!("ok {}", u8::from(o)),
+                Err(_) => "err".into(),
+            })
+        }
+        ("cext", [e]) => {
+            let Ok(e) = e.parse::<u16>() else { return bad() };
+            guarded(move || match Rcode::try_from(ExtendedRcode::from(e)) {
+                Ok(o) => format!("ok {}", u8::from(o)),
+                Err(_) => "err".into(),
+            })
+        }
+        _ => return None,
+    })
+}
+
+const KINDS: [&str; 4] = ["t", "c", "qt", "qc"];
+
+/// test vocabulary: mnemonics to try in every case variant (more are discovered from Display)
+const TYPE_MNEMONICS: [&str; 20] = [
+    "A", "NS", "MD", "MF", "CNAME", "SOA", "MB", "MG", "MR", "NULL", "WKS", "PTR", "HINFO", "MINFO", "MX", "TXT",
+    "AAAA", "SRV", "OPT", "TSIG",
+];
+const QTYPE_MNEMONICS: [&str; 6] = ["IXFR", "AXFR", "MAILB", "MAILA", "ANY", "*"];
+const CLASS_MNEMONICS: [&str; 3] = ["IN", "CH", "HS"];
+const QCLASS_MNEMONICS: [&str; 3] = ["NONE", "ANY", "*"];
+
+fn emit(em: &mut Emitter, case: String) {
+    let mut it = case.split(' ');
+    let op = it.next().unwrap();
+    let args: Vec<&str> = it.collect();
+    let r = run(op, &args).unwrap();
+    em.emit(&case, &r);
+}
+
+fn emit_parse(em: &mut Emitter, kind: &str, text: &str) {
+    emit(em, format!("cparse {} {}", kind, hex(text.as_bytes())));
+}
+
+/// every ASCII-case variant of `m` (2^letters of them)
+fn case_variants(m: &str) -> Vec<String> {
+    let chars: Vec<char> = m.chars().collect();
+    let letters: Vec<usize> = (0..chars.len()).filter(|&i| chars[i].is_ascii_alphabetic()).collect();
+    let mut out = Vec::new();
+    for mask in 0..(1u32 << letters.len()) {
+        let mut c = chars.clone();
+        for (bit, &i) in letters.iter().enumerate() {
+            c[i] = if mask >> bit & 1 == 1 { c[i].to_ascii_lowercase() } else { c[i].to_ascii_uppercase() };
+        }
+        out.push(c.into_iter().collect());
+    }
+    out
+}
+
+fn random_case(rng: &mut Rng, m: &str) -> String {
+    m.chars()
+        .map(|c| if rng.chance(1, 2) { c.to_ascii_lowercase() } else { c.to_ascii_uppercase() })
+        .collect()
+}
+
+fn word_of(kind: &str) -> &'static str {
+    if kind == "t" || kind == "qt" { "TYPE" } else { "CLASS" }
+}
+
+const NEAR_MISS: [&str; 64] = [
+    "", " ", "TYPE", "CLASS", "type", "class", "TYP", "CLAS", "TYPE+5", "TYPE-5", "TYPE+", "TYPE-", "TYPE++5",
+    "TYPE+-5", "TYPE065", "TYPE0", "TYPE00", "TYPE+0", "TYPE-0", "TYPE65535", "TYPE65536", "TYPE65537", "TYPE99999",
+    "TYPE100000", "TYPE4294967296", "TYPE4294967297", "TYPE18446744073709551617", "TYPE000000000000000000065535",
+    "TYPE000000000000000000065536", "TYPE1 ", " TYPE1", "TYPE 1", "TYPE1\n", "TYPE1\0", "type1", "tYpE1", "TYPE1x",
+    "TYPEx1", "TYPE0x10", "TYPE1_0", "TYPE1e3", "TYPE1.0", "TYPE١", "TYPE１", "ＴYPE1", "TYPÉ1", "TYP€", "TYP€1",
+    "TY€", "T€", "€", "😀", "TYP😀", "TYPE😀", "TYPE1😀", "CLASS+5", "CLASS065", "CLASS65536", "CLASS1 ", "class1",
+    "CLAS€", "CLASＳ1", "CLASS255", "TYPECLASS1",
+];
+
+const ALPHABET: [&str; 40] = [
+    "T", "Y", "P", "E", "t", "y", "p", "e", "C", "L", "A", "S", "c", "l", "a", "s", "0", "1", "2", "5", "6", "9", "+",
+    "-", " ", "*", "N", "I", "X", "\u{e9}", "\u{ff34}", "\u{20ac}", "\u{1f600}", "\u{661}", "\u{ff11}", "\0", "\u{7f}",
+    "\u{80}", ".", "_",
+];
+
+pub fn gen(rng: &mut Rng, thorough: bool, em: &mut Emitter) {
+    // 1. exhaustive (both tiers): display -> parse and the displayed text, all 65536 values x 4 kinds
+    let mut discovered: Vec<Vec<String>> = vec![Vec::new(); 4];
+    for (ki, kind) in KINDS.iter().enumerate() {
+        for v in 0..=65535u32 {
+            emit(em, format!("crt {} {}", kind, v));
+            let text = display(kind, v as u16).unwrap();
+            emit(em, format!("cpres {} {} {}", kind, v, hex(text.as_bytes())));
+            if !text.to_ascii_uppercase().starts_with(word_of(kind)) && text.len() <= 12 {
+                discovered[ki].push(text);
+            }
+        }
+    }
+    // 2. exhaustive (both tiers): u8 -> Opcode / Rcode, ExtendedRcode -> Rcode
+    for x in 0..=255u32 {
+        emit(em, format!("copc {}", x));
+        emit(em, format!("crc {}", x));
+    }
+    for e in 0..=65535u32 {
+        emit(em, format!("cext {}", e));
+    }
+    // 3. exhaustive (both tiers): every case variant of every mnemonic, for every kind
+    //    (a mnemonic of another kind must behave as that kind says: e.g. "IN" is no TYPE)
+    let mut vocab: Vec<String> = Vec::new();
+    for m in TYPE_MNEMONICS.iter().chain(&QTYPE_MNEMONICS).chain(&CLASS_MNEMONICS).chain(&QCLASS_MNEMONICS) {
+        vocab.push(m.to_string());
+    }
+    for d in &discovered {
+        vocab.extend(d.iter().cloned());
+    }
+    vocab.sort();
+    vocab.dedup();
+    for m in &vocab {
+        for variant in case_variants(m) {
+            for kind in KINDS {
+                emit_parse(em, kind, &variant);
+            }
+        }
+    }
+    // 4. RFC 3597 forms for every value: quick = one random case variant of the word per value and
+    //    kind (the exact upper-case spelling of every non-mnemonic value is already exercised by
+    //    `crt`); thorough = additionally the exact word, all-lower-case and a second random variant
+    for kind in KINDS {
+        let w = word_of(kind);
+        for v in 0..=65535u32 {
+            emit_parse(em, kind, &format!("{}{}", random_case(rng, w), v));
+            if thorough {
+                emit_parse(em, kind, &format!("{}{}", w, v));
+                emit_parse(em, kind, &format!("{}{}", w.to_ascii_lowercase(), v));
+                emit_parse(em, kind, &format!("{}{}", random_case(rng, w), v));
+            }
+        }
+    }
+    //    every case variant of the word, on boundary values
+    for kind in KINDS {
+        for p in case_variants(word_of(kind)) {
+            for v in [0u32, 1, 9, 10, 255, 256, 9999, 10000, 65535, 65536, 70000] {
+                emit_parse(em, kind, &format!("{}{}", p, v));
+            }
+        }
+    }
+    // 5. near misses, for every kind
+    for s in NEAR_MISS {
+        for kind in KINDS {
+            emit_parse(em, kind, s);
+            let other = if s.contains("TYPE") { s.replace("TYPE", "CLASS") } else { s.replace("CLASS", "TYPE") };
+            emit_parse(em, kind, &other);
+        }
+    }
+    // 6. random strings: (a) over the alphabet, (b) word + mutated number, (c) mutated mnemonic
+    let n = if thorough { 400_000 } else { 30_000 };
+    for _ in 0..n {
+        let kind = *rng.pick(&KINDS);
+        let text = match rng.below(4) {
+            0 => {
+                let len = rng.below(10);
+                (0..len).map(|_| *rng.pick(&ALPHABET)).collect::<String>()
+            }
+            1 => {
+                let w = if rng.chance(1, 8) { word_of(*rng.pick(&KINDS[..])) } else { word_of(kind) };
+                let mut t = random_case(rng, w);
+                if rng.chance(1, 10) {
+                    t.pop();
+                }
+                match rng.below(6) {
+                    0 => t.push('+'),
+                    1 => t.push_str(*rng.pick(&ALPHABET[..])),
+                    _ => {}
+                }
+                for _ in 0..rng.below(4) {
+                    t.push('0');
+                }
+                let v: u64 = match rng.below(5) {
+                    0 => rng.below(70000) as u64,
+                    1 => 65530 + rng.below(12) as u64,
+                    2 => rng.next() >> rng.below(64),
+                    3 => rng.below(300) as u64,
+                    _ => rng.below(10) as u64,
+                };
+                if !rng.chance(1, 12) {
+                    t.push_str(&v.to_string());
+                }
+                if rng.chance(1, 8) {
+                    t.push_str(*rng.pick(&ALPHABET[..]));
+                }
+                t
+            }
+            2 => {
+                let m = rng.pick(&vocab).clone();
+                let mut t = if rng.chance(1, 2) { m } else { random_case(rng, &m) };
+                match rng.below(5) {
+                    0 => t.push_str(*rng.pick(&ALPHABET[..])),
+                    1 => t.insert_str(0, *rng.pick(&ALPHABET[..])),
+                    2 => {
+                        t.pop();
+                    }
+                    _ => {}
+                }
+                t
+            }
+            _ => {
+                // a whole-string mutation of a valid text
+                let v = rng.below(65536) as u16;
+                let mut chars: Vec<char> = display(kind, v).unwrap().chars().collect();
+                if !chars.is_empty() {
+                    let i = rng.below(chars.len());
+                    match rng.below(3) {
+                        0 => chars[i] = (*rng.pick(&ALPHABET[..])).chars().next().unwrap(),
+                        1 => {
+                            chars.remove(i);
+                        }
+                        _ => chars.insert(i, (*rng.pick(&ALPHABET[..])).chars().next().unwrap()),
+                    }
+                }
+                chars.into_iter().collect()
+            }
+        };
+        emit_parse(em, kind, &text);
+    }
+}
